@@ -264,6 +264,16 @@ func c06Check(c *sCase, raw []byte) Result {
 			if err != nil || firstDiff(exp2, got2) >= 0 {
 				return mk("cs", "operand", got2, err)
 			}
+			if rep := c06Repeat(raw); rep > 0 {
+				// the same operation many times in ONE stream: what the parser keeps between operations (nesting
+				// counters, scratch buffers, the operand stack) must be as at the start each time
+				if res := c06Repeated(wrapped, exp2, rep); res != "" {
+					x := mk("cs", "operand", nil, fmt.Errorf("%s", res))
+					x.Sig += ":repeated"
+					return x
+				}
+				r.Evals++
+			}
 		}
 		return r
 	}
@@ -271,7 +281,57 @@ func c06Check(c *sCase, raw []byte) Result {
 	if err != nil || firstDiff(exp, got) >= 0 {
 		return mk("cs", "grouping", got, err)
 	}
+	if rep := c06Repeat(raw); rep > 0 {
+		if res := c06Repeated(b, exp, rep); res != "" {
+			x := mk("cs", "grouping", nil, fmt.Errorf("%s", res))
+			x.Sig += ":repeated"
+			return x
+		}
+		r.Evals++
+	}
 	return r
+}
+
+// c06Repeat: how often a sampled case is repeated in one stream (0 = not sampled): one case in sixteen (quick) or
+// four (thorough), chosen by the case's own bytes
+func c06Repeat(raw []byte) int {
+	h := 0
+	for _, b := range raw {
+		h = h*31 + int(b)
+	}
+	mod := 16
+	if tier() == "thorough" {
+		mod = 4
+	}
+	if h&0x7fffffff%mod != 0 {
+		return 0
+	}
+	return 40
+}
+
+// c06Repeated parses the stream written rep times in a row and compares with exp written rep times
+func c06Repeated(stream []byte, exp []string, rep int) string {
+	var all []byte
+	var want []string
+	for k := 0; k < rep; k++ {
+		all = append(append(all, stream...), '\n')
+		want = append(want, exp...)
+	}
+	got, err := parseCS(all)
+	if err != nil {
+		return fmt.Sprintf("the stream written %d times in a row fails: %v", rep, err)
+	}
+	if d := firstDiff(want, got); d >= 0 {
+		return fmt.Sprintf("the stream written %d times in a row differs from %d times its own result at item %d (repetition %d)", rep, rep, d, d/maxInt(len(exp), 1)+1)
+	}
+	return ""
+}
+
+func maxInt(a, b int) int {
+	if a > b {
+		return a
+	}
+	return b
 }
 
 func c06ReplayCase(i int, raw []byte) Result {
